@@ -110,6 +110,7 @@ type Machine struct {
 	poolPuts  map[*Value]int
 	atomicVals map[*Value]Value
 	syncMaps  map[*Value]*Map
+	digests   map[*Value]*[]*sym.Term
 }
 
 type ufApp struct {
@@ -163,6 +164,7 @@ func (m *Machine) resetPath(prefix []Decision) {
 	m.poolPuts = map[*Value]int{}
 	m.atomicVals = map[*Value]Value{}
 	m.syncMaps = map[*Value]*Map{}
+	m.digests = nil
 }
 
 func (m *Machine) freshName(prefix string) string {
